@@ -152,7 +152,7 @@ Print Assumptions table_leaf_transpose_is_adjoint.
 Print Assumptions fresh_lazy_transpose_is_adjoint.
 
 (* non-vacuity: a block-diagonal of (rotation @ half-wave plate) and a scaled rotation, over Qc: both
-   sides of the adjoint identity are defined and equal; the guard, well-formedness and the
+   sides of the adjoint identity are defined, equal and non-zero; the guard, well-formedness and the
    structure swap hold; an expression with the iterative inverse fails the guard *)
 Example c03_example :
   let l2 := Leaf (mkSds [2%nat] 0%nat) in let s := Node (KStokes 3%nat) [l2; l2; l2] in
@@ -164,11 +164,10 @@ Example c03_example :
   let x := Node KList [v 1 2 3 4 5 6; v 0 1 (-1) 2 3 1]%Z in
   let y := Node KList [v 2 0 1 1 (-3) 2; v 1 1 0 5 2 (-2)]%Z in
   no_inverse e = true /\ wfo e = true /\ sym_square e = true /\ canonical e = true /\
-  structs (x_transpose e) = swap (structs e) /\
-  (exists ex ety, den [] e x = Some ex /\ den [] (x_transpose e) y = Some ety /\
-                  xinner ex y = xinner x ety /\ xinner ex y <> k0) /\
+  structs (x_transpose e) = swap (structs e) /\ wfo (x_transpose e) = true /\
+  match den [] e x, den [] (x_transpose e) y with
+  | Some ex, Some ety => Qc_eq_bool (xinner ex y) (xinner x ety) && negb (Qc_eq_bool (xinner ex y) k0)
+  | _, _ => false
+  end = true /\
   no_inverse (Wrap 7%N WInverse r) = false.
-Proof.
-  vm_compute. repeat split; try reflexivity.
-  eexists. eexists. repeat split; try reflexivity. discriminate.
-Qed.
+Proof. vm_compute. repeat split. Qed.
